@@ -23,7 +23,7 @@ Threads, receiver cells (cursor `Arc<AtomicUsize>`s), capacity, programs (`call`
 environment choices: any operation on any existing handle that no thread is currently using) and
 schedules are unbounded parameters. Waker = the id of the thread it unparks (`sync_waker`).
 
-Ghost state: `sent` (payload of index i, appended when its sequence number is published), `got r`
+Ghost state: `lim`/`dirty` (proof bookkeeping, see the fields), `sent` (payload of index i, appended when its sequence number is published), `got r`
 (what the handle on cell r has returned), `c0 r` (cursor at creation), `dropped` (indices whose
 payload the channel dropped), `sOwner`/`rOwner` (which thread is inside an operation on a handle:
 the API gives every handle to one thread at a time), `taint` (set when a closed handle is revived
@@ -227,6 +227,10 @@ structure State where
   got : Nat → List Nat
   c0 : Nat → Nat
   dropped : List Nat
+  /-- ghost: the producer may publish indices below `lim` (`lim ≤ cursor + cap` for every registered cursor) -/
+  lim : Nat
+  /-- ghost: the slot of the next index has been overwritten but its sequence number not yet stored -/
+  dirty : Bool
   taint : Bool
   torn : Bool
 
@@ -238,7 +242,8 @@ def init (cap : Nat) : State :=
     tailsMx := none, flag := 0, pthread := none, pdropped := false, sclosed := false,
     rclosed := fun _ => false, token := fun _ => false, pc := fun _ => .idle,
     sAlive := true, rAlive := fun r => r == 0, sOwner := none, rOwner := fun _ => none,
-    sent := [], got := fun _ => [], c0 := fun _ => 0, dropped := [], taint := false, torn := false }
+    sent := [], got := fun _ => [], c0 := fun _ => 0, dropped := [], lim := 0, dirty := false,
+    taint := false, torn := false }
 
 /-- the published cursor list (what a reader that commits now dereferences) -/
 def State.pub (s : State) : List Nat := s.lr.data s.lr.live
@@ -260,16 +265,22 @@ def omin (m : Option Nat) (v : Nat) : Nat :=
   | none => v
   | some x => min x v
 
+def probeLen (h : Nat) : Option Nat → Nat
+  | none => 0
+  | some mv => h - mv
+
 def probeRes (p : SProbe) (cap h : Nat) (L : List Nat) (m : Option Nat) : Res :=
-  let len := match m with | none => 0 | some mv => h - mv
   match p with
-  | .len => .num len
-  | .isEmpty => .bool (len == 0)
-  | .isFull => .bool (len == cap)
+  | .len => .num (probeLen h m)
+  | .isEmpty => .bool (probeLen h m == 0)
+  | .isFull => .bool (probeLen h m == cap)
   | .isClosed => .bool L.isEmpty
 
 /-- retry of the send loop -/
 def retryPC (x : SCtx) : PC := if x.batch then .snd (.sHead (.space x)) else .snd (.sHead (.trySend x))
+
+/-- `producer_space` capped by the number of items still to send -/
+def spaceK (cap h mv n : Nat) : Nat := min (cap - min (h - mv) cap) n
 
 /-- where the sender goes once the read guard is dropped -/
 def afterScan (cap : Nat) (k : ScanK) (h : Nat) (L : List Nat) (m : Option Nat) : PC :=
@@ -279,8 +290,8 @@ def afterScan (cap : Nat) (k : ScanK) (h : Nat) (L : List Nat) (m : Option Nat) 
     if h - mv ≥ cap then (if x.blk then .snd (.slHead x) else .ret .sFull) else .snd (.wSeqLd x h 0 1)
   | .space x, none => .ret (.sBatch x.done true)
   | .space x, some mv =>
-    let k := min (cap - min (h - mv) cap) x.items.length
-    if k = 0 then (if x.blk then .snd (.aStore x) else .ret (.sBatch x.done false)) else .snd (.bHead x k)
+    if spaceK cap h mv x.items.length = 0 then (if x.blk then .snd (.aStore x) else .ret (.sBatch x.done false))
+    else .snd (.bHead x (spaceK cap h mv x.items.length))
   | .recheck x, none => .snd (.dCas (.closed x))
   | .recheck x, some mv => if h - mv ≥ cap then .snd (.pPark x) else .snd (.dCas (.retry x))
   | .recheckB x, none => .snd (.dCas (.bClosed x))
@@ -298,11 +309,12 @@ def dkCont : DK → PC
   | .bRetry x => retryPC x
 
 /-- after the written slots' waker lists are drained and the wakers woken: finish the write -/
+def restCtx (x : SCtx) (k : Nat) : SCtx := { x with items := x.items.drop k, done := x.done + k }
+
 def afterWrite (x : SCtx) (k : Nat) : PC :=
-  let x' : SCtx := { x with items := x.items.drop k, done := x.done + k }
   if x.batch then
-    if x'.items.isEmpty then .ret (.sBatch x'.done false)
-    else if x.blk then .snd (.aStore x') else .ret (.sBatch x'.done false)
+    if (x.items.drop k).isEmpty then .ret (.sBatch (x.done + k) false)
+    else if x.blk then .snd (.aStore (restCtx x k)) else .ret (.sBatch (x.done + k) false)
   else .ret .sOk
 
 def wakeOr (x : SCtx) (k : Nat) (acc : List Nat) : PC :=
@@ -393,11 +405,13 @@ def stepSScan (s : State) (t : Nat) (k : ScanK) (h i : Nat) (done todo : List Na
   match todo with
   | [] => none
   | r :: rest =>
-    let m' := omin m (s.cur r)
     match rest with
-    | [] => if headAfter k then some (s.goS t (.snd (.sHead2 k i (done ++ [r]) m')))
-            else some (s.goS t (.snd (.sExit k h i (done ++ [r]) (some m'))))
-    | _ => some (s.goS t (.snd (.sScan k h i (done ++ [r]) rest (some m'))))
+    | [] => if headAfter k then
+              some { s.goS t (.snd (.sHead2 k i (done ++ [r]) (omin m (s.cur r)))) with
+                     lim := max s.lim (omin m (s.cur r) + s.cap) }
+            else some { s.goS t (.snd (.sExit k h i (done ++ [r]) (some (omin m (s.cur r))))) with
+                        lim := max s.lim (omin m (s.cur r) + s.cap) }
+    | _ => some (s.goS t (.snd (.sScan k h i (done ++ [r]) rest (some (omin m (s.cur r))))))
 
 def stepSHead2 (s : State) (t : Nat) (k : ScanK) (i : Nat) (L : List Nat) (m : Nat) : State :=
   s.goS t (.snd (.sExit k s.head i L (some m)))
@@ -416,12 +430,12 @@ def stepWSeqLd (s : State) (t : Nat) (x : SCtx) (h j k : Nat) : State :=
 def stepWVal (s : State) (t : Nat) (x : SCtx) (h j k q : Nat) : State :=
   { s.goS t (.snd (.wSeqSt x h j k)) with
     val := upd s.val ((h + j) % s.cap) (x.items.getD j 0),
-    dropped := if q % 2 = 1 then s.dropped ++ [q / 2] else s.dropped }
+    dropped := if q % 2 = 1 then s.dropped ++ [q / 2] else s.dropped, dirty := true }
 
 def stepWSeqSt (s : State) (t : Nat) (x : SCtx) (h j k : Nat) : State :=
   { s.goS t (if j + 1 < k then .snd (.wSeqLd x h (j + 1) k) else .snd (.wHeadSt x h k)) with
     seq := upd s.seq ((h + j) % s.cap) (2 * (h + j) + 1),
-    sent := s.sent ++ [x.items.getD j 0] }
+    sent := s.sent ++ [x.items.getD j 0], dirty := false }
 
 def stepWHeadSt (s : State) (t : Nat) (x : SCtx) (h k : Nat) : State :=
   { s.goS t (.snd (.wLockW x h 0 k [])) with head := h + k }
